@@ -26,6 +26,8 @@ def build():
     s.item('struct', 'ScopeSymbolTable', attrs=['#[verifier::external_body]'])
     s.item('struct', 'SymbolTable')
     U.file(E).item('enum', 'SemanticErrorKind')
+    U.file(E).item('struct', 'SemanticError')
+    U.file(E).item('struct', 'SemanticErrorList')
     U.file(C).item('struct', 'Context')
     U.prelude('contracts/sym.prelude.rs')
 
@@ -173,6 +175,29 @@ ensures
     ])
     s.impl(r'Index<&SymbolId> for SymbolTable', [
         ('index', dict(ret='r', props=['C19', 'C07'], spec='ensures *r == self.store()[symbol_id.0 as int],')),
+    ])
+    ef = U.file(E)
+    PUSHK = 'final(self).kinds() =~= old(self).kinds().push(%s), final(self).nodes() =~= old(self).nodes().push(%s), final(self).include_errors == old(self).include_errors,'
+    ef.impl('SemanticErrorList', [
+        ('new', dict(ret='r', props=['C07', 'C12'], spec='ensures r.kinds() =~= Seq::<SemanticErrorKind>::empty(), r.list@.len() == 0, r.include_errors@.len() == 0,')),
+        ('push_included', dict(props=['C07'], spec='ensures final(self).list == old(self).list, final(self).include_errors@ == old(self).include_errors@.push(new_errors),')),
+        ('insert_error', dict(props=['C07', 'C12'], spec='ensures ' + PUSHK % ('error.error_kind', 'error.node'))),
+        ('insert_syntax_node', dict(props=['C07', 'C12'], spec='ensures ' + PUSHK % ('error_kind', 'node'))),
+        # exactly one diagnostic of that kind is appended, attached to the syntax node of the AST node given
+        ('insert', dict(props=['C07', 'C12'], spec='ensures ' + PUSHK % ('error_kind', 'node.sp_syntax()') + '      //@C07,C12:diagnostic-on-the-node')),
+    ])
+    ef.impl('SemanticError', [
+        ('new', dict(ret='r', props=['C12'], spec='ensures r.error_kind == error_kind, r.node == node,')),
+        # C12: the range of a semantic diagnostic is the range of the node it was reported on
+        ('range', dict(ret='r', props=['C12'], spec='ensures r == self.node.sp_text_range(),      //@C12:range-of-the-node')),
+        ('kind', dict(ret='r', props=['C12', 'C07'], spec='ensures *r == self.error_kind,')),
+    ])
+    s.impl('Default for SymbolTable', [
+        ('default', dict(ret='r', props=['C19'], spec='''ensures
+    r.wf(), r.depth() == 1,
+    resolve(r.scopes(), "pi"@) is Some, resolve(r.scopes(), "π"@) is Some, resolve(r.scopes(), "euler"@) is Some,
+    resolve(r.scopes(), "ℇ"@) is Some, resolve(r.scopes(), "tau"@) is Some, resolve(r.scopes(), "τ"@) is Some,
+    resolve(r.scopes(), "U"@) is Some,                                                 //@C19:builtins''')),
     ])
     c = U.file(C)
     c.impl('Context', [
